@@ -280,7 +280,8 @@ def cases(rng, tier, shard, nshards):
             expect["p2"] = walk
         elif kind == "broken":
             items, _ = present(rng, walk, edges, "full")
-            how = rng.choice(["foreign-segment", "ambiguous", "gap"])
+            how = rng.choice(["foreign-segment", "ambiguous", "gap", "ambiguous-twins"])
+            extra_edges = []
             if how == "foreign-segment":
                 other = [s for s in segs if all(s != w[0] for w in walk[::2])]
                 if not other or len(items) < 3:
@@ -292,6 +293,18 @@ def cases(rng, tier, shard, nshards):
                 a, b = walk[0], walk[2]
                 lines.append("E\tpar\t%s%s\t%s%s\t0\t5\t15\t20$\t*" % (a[0], a[1], b[0], b[1]))
                 items = [a[0] + a[1], b[0] + b[1]]
+                extra_edges = [("par", walk[0], walk[2])]
+            elif how == "ambiguous-twins":
+                # the only two edges which fit are unnamed and written identically (two distinct
+                # E lines with the same content are two edges)
+                a = (rng.choice(segs), rng.choice("+-"))
+                b = (rng.choice(segs), rng.choice("+-"))
+                if n_fitting(edges, a, b) != 0:
+                    continue
+                tw = "E\t*\t%s%s\t%s%s\t0\t5\t15\t20$\t*" % (a[0], a[1], b[0], b[1])
+                lines += [tw, tw]
+                items = [a[0] + a[1], b[0] + b[1]]
+                extra_edges = [("tw1", a, b), ("tw2", a, b)]
             else:
                 if len(walk) < 5:
                     continue
@@ -300,7 +313,7 @@ def cases(rng, tier, shard, nshards):
                 if n_fitting(edges, a, c) > 0:
                     continue
                 items = [a[0] + a[1], c[0] + c[1]]
-            alle = edges + ([("par", walk[0], walk[2])] if how == "ambiguous" else [])
+            alle = edges + extra_edges
             if len(consistent_walks([(x[:-1], x[-1]) for x in items], segs, alle, {})) == 1:
                 continue            # the list still denotes exactly one walk: not broken after all
             groups.append("O\tp1\t" + " ".join(items))
